@@ -52,6 +52,10 @@ class Prop(PropBase):
                     d2 = d1 if rng.random() < 0.5 else (not d1)
                     if rng.random() < 0.3:
                         rpm2 = rpm1          # pure return-mode change (or a plain repeat)
+                    if t == 'RSBP' and q % 2 == 0 and r == 0:
+                        # Bpearl v4, whatever the seed: the same rpm announced before and after the first MSOP packet (which replaces the
+                        # block period): N follows the period in force when each DIFOP packet is decoded (90, then 89 at 12000 rpm)
+                        rpm1 = rpm2 = 12000
                     s = scen.Scn(f'c15_fixed_{t}_{r}_{q}_rpm{rpm1}{"d" if d1 else "s"}_rpm{rpm2}{"d" if d2 else "s"}')
                     s.drv(0, l, cfg)
                     ms = scen.MechStream(rng, l, dual=d1)
